@@ -128,7 +128,7 @@ func genBatchPoints(t *rapid.T, l Layout, now int64, id int, o histGenOpts) []MP
 	var pts []MPoint
 	kind := rapid.IntRange(0, 9).Draw(t, "batchKind")
 	switch {
-	case kind == 0 && ar.Points <= 400:
+	case kind == 0 && (ar.Points <= 400 || (o.BigBatches && ar.Points <= 8000)):
 		// cover the archive's whole (now-ret, now] range: for step > 1 and now not at the last
 		// second of a step this spans N+1 intervals of a ring of N (ring self-overwrite)
 		stride := ar.Step
@@ -225,13 +225,35 @@ func genHistoryAt(t *rapid.T, l Layout, o histGenOpts, now int64) HistCase {
 				k = 18 // abandon / reopen
 			}
 		}
+		if k < 6 && len(c.Ops) > 0 && rapid.IntRange(0, 5).Draw(t, "repeatUpdate") == 0 {
+			// re-issue an earlier single update verbatim: same interval, same value (a no-op for the slot,
+			// but the coarser slots must still be recomputed from the current finer content)
+			var prev []Op
+			for _, p := range c.Ops {
+				if p.Kind == "update" && p.T <= now && now-p.T < l.MaxRet() {
+					prev = append(prev, p)
+				}
+			}
+			if len(prev) > 0 {
+				rp := prev[rapid.IntRange(0, len(prev)-1).Draw(t, "repeatOf")]
+				op = Op{Kind: "update", ID: rp.ID, T: rp.T, V: rp.V}
+				if o.Windows > 0 {
+					op.Windows = genWindows(t, l, now, o.Windows)
+				}
+				c.Ops = append(c.Ops, op)
+				continue
+			}
+		}
 		switch {
 		case k < 6:
 			op.Kind = "update"
 			op.ID = rapid.IntRange(-1, len(l.Archives)-1).Draw(t, "updID")
 			age := genAge(t, l, -1, false, "updAge")
 			if o.AllowRejected && rapid.IntRange(0, 4).Draw(t, "rej") == 0 {
-				age = rapid.SampledFrom([]int64{-1, -2, l.MaxRet(), l.MaxRet() + 1, l.MaxRet() - 1}).Draw(t, "rejAge")
+				age = rapid.SampledFrom([]int64{-1, -2, l.MaxRet(), l.MaxRet() + 1, l.MaxRet() - 1, now - 1, now - 1000, 1 << 31, 1<<31 + 1, 1<<31 - 1}).Draw(t, "rejAge")
+				if age >= now {
+					age = now - 1
+				}
 			}
 			if op.ID >= 0 && !o.StaleNamed && age >= l.Archives[op.ID].Ret() {
 				age = rapid.Int64Range(0, l.Archives[op.ID].Ret()-1).Draw(t, "updAgeNamed")
